@@ -29,6 +29,33 @@ SCHEMAS = {}        # abstract class schema name -> Schema
 CLASS_MODELS = {}   # adcgen class key -> model for constructor calls
 INLINE = set()      # adcgen function keys that may be interpreted inline
 ASSUMPTIONS = []    # global textual assumptions (encoding level)
+# hooks through which contract/spec files give meaning to abstract `Struct`
+# objects (abstract views of sympy / adcgen objects)
+SUBCLASS = {}           # class short name -> tuple of base class short names
+STRUCT_ARITH = {}       # cls -> fn(ip, opname, a, b)
+STRUCT_INPLACE = {}     # cls -> fn(ip, opname, cur, rhs) -> (handled, value)
+STRUCT_IS = {}          # cls -> fn(ip, a, b) -> bool/z3
+STRUCT_EQ = {}          # cls -> fn(ip, a, b) -> bool/z3
+STRUCT_TRUTH = {}       # cls -> fn(ip, v) -> bool/z3
+STRUCT_METHODS = {}     # (cls, name) -> fn(ip, obj, args, kwargs)
+STRUCT_ATTR = {}        # (cls, name) -> fn(ip, obj)
+STRUCT_ITER = {}        # cls -> fn(ip, obj) -> list   (concrete iteration)
+STRUCT_SYMITER = {}     # cls -> fn(ip, obj) -> SymIter (symbolic iteration)
+STRUCT_LEN = {}         # cls -> fn(ip, obj)
+STRUCT_SUBSCRIPT = {}   # cls -> fn(ip, obj, idx)
+STRUCT_STORE = {}       # cls -> fn(ip, obj, idx, v)
+STRUCT_CONTAINS = {}    # cls -> fn(ip, obj, x)
+STRUCT_ISINSTANCE = {}  # cls -> fn(ip, obj, classref)
+CLASS_ATTR = {}         # (class key, attr) -> value
+SYMBOLIC_ITERABLES = set()
+LEMMAS = {}             # prop -> {name: fn() -> [(subname, z3 formula)]}
+
+
+def lemma(prop, name):
+    def deco(fn):
+        LEMMAS.setdefault(prop, {})[name] = fn
+        return fn
+    return deco
 
 
 class LoopContract:
@@ -94,6 +121,13 @@ class Contract:
         for exc, when in self.raises(vc, a):
             if vc.decide(when):
                 raise RaiseEx(exc, f"(contract of {self.key})")
+        for exc, cond in getattr(self, "may_raise", lambda v, x: [])(vc, a):
+            if vc.choose(2, "may-raise") == 1:
+                vc.assume(cond)
+                if not vc.feasible():
+                    from .vc import PathEnd
+                    raise PathEnd()
+                raise RaiseEx(exc, f"(contract of {self.key})")
         res = self.fresh_result(vc, a)
         for _name, f in self.post(vc, a, res):
             vc.assume(f)
@@ -131,7 +165,9 @@ class Schema:
     pyclass: names of Python classes an instance is an `isinstance` of
     """
 
-    def __init__(self, name, sort, attrs=None, methods=None, classes=()):
+    def __init__(self, name, sort, attrs=None, methods=None, classes=(),
+                 invariant=None):
+        self.invariant = invariant   # fn(term) -> z3 Bool: type invariant
         self.name = name
         self.sort = sort
         self.attrs = attrs or {}
@@ -147,3 +183,8 @@ def reset():
     CLASS_MODELS.clear()
     INLINE.clear()
     del ASSUMPTIONS[:]
+    for d in (SUBCLASS, STRUCT_ARITH, STRUCT_INPLACE, STRUCT_IS, STRUCT_EQ,
+              STRUCT_TRUTH, STRUCT_METHODS, STRUCT_ATTR, STRUCT_ITER,
+              STRUCT_SYMITER, STRUCT_LEN, STRUCT_SUBSCRIPT, STRUCT_STORE,
+              STRUCT_CONTAINS, STRUCT_ISINSTANCE, CLASS_ATTR, LEMMAS):
+        d.clear()
